@@ -59,12 +59,17 @@ func (p *c04Proc) Execute(flowName string, s publictypes.APIStreamI) (streamtype
 				"per-transaction state of a running transaction was cleared or overwritten by another transaction")
 		}
 	}
-	if p.w.early[p.key] && s.GetType().IsRequestType() {
-		return streamtypes.ProcessorIO{
-			Type:      publictypes.StreamTypeResponse,
-			ReqAction: &actions.EarlyResponseAction{Status: 200},
-			Name:      "",
-		}, nil
+	if p.w.early[p.key] {
+		// like the GenerateResponse / cache-hit kind of processor: its output is response-typed in
+		// both directions; on a request it carries the early response
+		if s.GetType().IsRequestType() {
+			return streamtypes.ProcessorIO{
+				Type:      publictypes.StreamTypeResponse,
+				ReqAction: &actions.EarlyResponseAction{Status: 200},
+				Name:      "",
+			}, nil
+		}
+		return streamtypes.ProcessorIO{Type: publictypes.StreamTypeResponse, Name: p.w.out[p.key]}, nil
 	}
 	return streamtypes.ProcessorIO{Type: publictypes.StreamTypeAny, Name: p.w.out[p.key]}, nil
 }
@@ -400,7 +405,7 @@ func VerifC04Walk() {
 	symReq := verifParam("symReq", 1) == 1
 	symResp := verifParam("symResp", 0) == 1
 	double := verifParam("double", 0) == 1
-	withEarly := verifParam("early", 0) == 1
+	withEarly := verifParam("early", 0) >= 1
 	var p []string
 	for i := 0; i < n; i++ {
 		p = append(p, fmt.Sprintf("p%d", i))
@@ -416,10 +421,15 @@ func VerifC04Walk() {
 		f.req = c04Reverse(f.req)
 		f.res = c04Reverse(f.res)
 	}
-	er := -1
 	if withEarly {
-		er = verifChoose("early", n+1) - 1
-		if er >= 0 {
+		if verifParam("early", 0) == 2 {
+			// any subset of the processors is of the self-answering kind
+			for i := 0; i < n; i++ {
+				if verifBool(fmt.Sprintf("early%d", i)) {
+					w.early[p[i]] = true
+				}
+			}
+		} else if er := verifChoose("early", n+1) - 1; er >= 0 {
 			w.early[p[er]] = true
 		}
 	}
@@ -517,7 +527,7 @@ func VerifC04Refs() {
 	a.res = []c04Conn{
 		{from: "", to: "a1"},
 		{from: "a1", to: "a0", cond: c04Cond("a_r0", verifParam("respCond", 0) == 1)},
-		{from: "a0", toFlow: "B", cond: c04Cond("a_r1", verifParam("respCond", 0) == 1)},
+		{from: "a0", toFlow: "B", cond: c04Cond("a_r1", true)},
 	}
 	er := verifChoose("early", len(all)+1) - 1
 	if er >= 0 {
